@@ -39,45 +39,85 @@ def cfg_text(spec="Spec", constants=None, invariants=(), properties=(),
     return "\n".join(lines) + "\n"
 
 
-def run_g(chk, module, cfg, replay, *, nontrivial=None, sample_every=None,
-          workers=16, timeout=1500, extra_files=None, confirm=True, **kw):
-    """Explore with TLC, replay every emitted behaviour on the real code."""
-    count = [0]
-
-    def on_value(v):
-        count[0] += 1
-        chk.evaluations += 1
+def _replay_batch(args):
+    """Worker: decode and replay a batch of emitted behaviours."""
+    replay, nontrivial, lines, want_sample = args
+    n = nt = 0
+    bad = []
+    sample = None
+    for line in lines:
+        v = json.loads(json.loads(line))
+        n += 1
+        if nontrivial is not None and nontrivial(v) is not None:
+            nt += 1
+        if want_sample and sample is None:
+            sample = v
         d = replay(v)
-        chk.traces += 1
-        if nontrivial is not None:
-            key = nontrivial(v)
-            if key is not None:
-                chk.nontrivial_count += 1
-        if sample_every and count[0] % sample_every == 1:
-            chk.sample(v)
         if d is not None:
-            if confirm:
-                d2 = replay(v)
-                if d2 is None:
-                    raise MachineryError("disagreement not reproducible: %r" % (d,))
+            d2 = replay(v)
+            d["_reproduced"] = d2 is not None
             d.setdefault("direction", "G")
             d.setdefault("emitted", v)
-            chk.disagree(d)
+            bad.append(d)
+    return n, nt, bad, sample
 
-    r = tlc.run(module, cfg, on_value=on_value, workers=workers, timeout=timeout,
-                extra_files=extra_files, **kw)
+
+def run_g(chk, module, cfg, replay, *, nontrivial=None, sample_every=None,
+          workers=6, timeout=1500, extra_files=None, procs=12, batch=1500, **kw):
+    """Explore with TLC, replay every emitted behaviour on the real code.
+    `replay` and `nontrivial` must be module-level functions (they run in
+    forked worker processes)."""
+    import multiprocessing as mp
+    ctx = mp.get_context("fork")
+    pool = ctx.Pool(procs)
+    pending = []
+    buf = []
+    total = [0]
+    nb = [0]
+
+    def flush():
+        if buf:
+            nb[0] += 1
+            want_sample = bool(sample_every) and (nb[0] % max(1, sample_every // batch) == 1)
+            pending.append(pool.apply_async(_replay_batch, ((replay, nontrivial, list(buf), want_sample),)))
+            del buf[:]
+
+    def on_raw(line):
+        buf.append(line)
+        if len(buf) >= batch:
+            flush()
+
+    try:
+        r = tlc.run(module, cfg, on_raw=on_raw, workers=workers, timeout=timeout,
+                    extra_files=extra_files, **kw)
+        flush()
+        for p in pending:
+            n, nt, bad, sample = p.get()
+            total[0] += n
+            chk.evaluations += n
+            chk.traces += n
+            chk.nontrivial_count += nt
+            if sample is not None:
+                chk.sample(sample)
+            for d in bad:
+                if not d.pop("_reproduced"):
+                    raise MachineryError("disagreement not reproducible: %r" % (d,))
+                chk.disagree(d)
+    finally:
+        pool.terminate()
+        pool.join()
     chk.add_tlc(r)
     if r.violation:
         raise MachineryError(
             "design-level check failed in TLC: %s is violated - the operational and the "
             "declarative formulation of the specification disagree\n%s" % (r.violation, r.error_text))
-    if count[0] == 0:
-        raise MachineryError("TLC emitted no behaviour for %s" % module)
-    return r, count[0]
+    if total[0] == 0:
+        raise MachineryError("TLC emitted no behaviour for %s" % (module[:60],))
+    return r, total[0]
 
 
 def run_v(chk, module, cfg, records, describe, *, workers=1, timeout=1500,
-          extra_files=None, nontrivial=None, **kw):
+          extra_files=None, nontrivial=None, header=None, **kw):
     """Validate recorded executions.  records: list of JSON-able dicts (the
     harness' own bookkeeping may live under keys starting with '_', which are
     not written to the trace file).  describe(i, record, clause) builds the
@@ -89,7 +129,9 @@ def run_v(chk, module, cfg, records, describe, *, workers=1, timeout=1500,
     path = os.path.join(d, "trace.json")
     try:
         with open(path, "w") as f:
-            json.dump(trace, f)
+            doc = {"recs": trace}
+            doc.update(header or {})
+            json.dump(doc, f)
         verdicts = {}
 
         def on_value(v):
